@@ -101,7 +101,7 @@ func ProfileFor(prop, tier string, r *Rng) *Profile {
 		scale(5, KReset)
 	case "C20":
 		p.Tiny = true
-		p.W[KRegistry] = 0 // histories must stay within 64 component types
+		p.W[KRegistry] = 1.5 // capped at 64 component types by Profile.Tiny (see opRegistry)
 		p.W[KQMisuse] = 8
 		scale(3, KMisuse, KSweep, KStats)
 	case "C19":
